@@ -145,6 +145,15 @@ def run_lin(case):
             A(np.asarray(crandn(rng, ish, np.float64)))
         except Exception:
             pass
+    if sum(case["rs"]) % 3 == 2:
+        # history: the very first uses of this operator object are rejected applications
+        # (wrong rank), before any valid one
+        sig += "|rejected-first"
+        for bad_ in (tuple(ish) + (2,), tuple(ish)[:-1], tuple(ish)[1:]):
+            try:
+                A(np.ones(bad_, cdt))
+            except Exception:
+                pass
     try:
         with structured((sum(case["rs"]) // 3) % 9 if sum(case["rs"]) % 2 else 0) as skind:
             x = crandn(rng, ish, cdt)
